@@ -36,6 +36,12 @@ Clauses of the statement and where they are proved, for every tree / every numbe
      (`Tree.mrca` + two climbs = unique path length).
  Final round: `pdm_three_point`, `upgma_inverts_pdm` (clause (a) composed with clause (d) on the library's tree shape `T`);
      `nj_four_cherry`, `nj_realises_four` (cherry-picking lemma and NJ inversion proved for four taxa).
+ Last round: `MinQCherryAt` (cherry-picking lemma as a statement about finite metrics), `nj_realises_of_quartet_lemma_partial`
+     (NJ's correctness reduced to it; all NJ machinery discharged), `minQ_cherry_four`, `minQ_cherry_five`, `nj_realises_five`,
+     `frac_nj_realises_five` (NJ inverts every additive metric with positive internal edges on ≤ 5 taxa); `nrel_quartet`,
+     `cherry_of_balanced`, `qval_eq_Qfun`; `tree_four_point` (distances of a tree with positive internal edges satisfy the strict
+     four-point condition), `nj_inverts_tree_five` (NJ clause about trees, n ≤ 5), `nj_inverts_tree_partial` (any n, given the lemma
+     for pools of 6 … n).  Missing: `MinQCherryAt α N` for N ≥ 6; uniqueness of additive trees.
  Bridge to the driver's number type: `toRat` is a homomorphism on fractions with non-zero denominator (`Aux.toRat_*`), the
  models are natural in the number type (`Aux.entries_nat`, `Aux.nj_run_rel`, `Aux.up_run_rel`), hence the statements at
  `Frac`: `frac_pdm_spec`, `frac_pdm_lookup_spec`, `frac_nj_rowsum_invariant`, `frac_nj_tree`, `frac_upgma_tree`. -/
@@ -4563,5 +4569,660 @@ example : ∃ v n m, treePatristic (α := ℚ) (fun _ => 1) false true (fun _ =>
       simp only [exCollapsed, T.nodes, T.nodesL, List.mem_cons, List.mem_append, List.not_mem_nil, or_false, List.append_nil] at hu
       rcases hu with rfl | rfl | rfl | (rfl | rfl) | rfl <;> simp [T.cs, T.taxon])
     (by decide) (by decide)
+
+
+/-! ## last round: the cherry-picking lemma as a statement about finite metrics, the reduction of NJ's correctness to it, and n ≤ 5 -/
+section quartets
+variable {α : Type} [Field α] [LinearOrder α] [IsStrictOrderedRing α]
+
+/-- the Q-criterion of a pair, written with explicit row sums over the pool (what `qval` computes from the maintained `_nj_xsub`) -/
+def Qfun (pool : List Nat) (D : Nat → Nat → α) (a b : Nat) : α :=
+  ((pool.length - 2 : Nat) : α) * D a b - ((pool.filter (fun m => m ≠ a)).map (D a)).sum
+    - ((pool.filter (fun m => m ≠ b)).map (D b)).sum
+
+/-- strict four-point condition on a set of labels: every four different ones form a quartet with a positive internal edge
+(what the distances of a binary tree with positive internal edge lengths satisfy) -/
+def StrictFourPoint (pool : List Nat) (D : Nat → Nat → α) : Prop :=
+  ∀ p ∈ pool, ∀ q ∈ pool, ∀ r ∈ pool, ∀ t ∈ pool, [p, q, r, t].Nodup → QuartetAt D p q r t
+
+/-- **the cherry-picking lemma for `N` labels** (Saitou–Nei / Studier–Keppler), as a statement about finite metrics only: under the
+strict four-point condition a pair of minimal Q is a cherry — every other two labels are on the same side of it. -/
+def MinQCherryAt (α : Type) [Field α] [LinearOrder α] [IsStrictOrderedRing α] (N : Nat) : Prop :=
+  ∀ (pool : List Nat) (D : Nat → Nat → α), pool.Nodup → pool.length = N →
+    (∀ a ∈ pool, ∀ b ∈ pool, D a b = D b a) → StrictFourPoint pool D →
+    ∀ f ∈ pool, ∀ g ∈ pool, f ≠ g → (∀ a ∈ pool, ∀ b ∈ pool, a ≠ b → Qfun pool D f g ≤ Qfun pool D a b) →
+    ∀ k ∈ pool, ∀ l ∈ pool, [f, g, k, l].Nodup → D f k + D g l = D f l + D g k
+
+theorem qval_eq_Qfun (s : NJ α) (h : NJInv s) (a b : Nat) (ha : a ∈ s.pool) (hb : b ∈ s.pool) :
+    qval s (a, b) = Qfun s.pool s.d a b := by
+  simp only [qval, Qfun, h.rows a ha, h.rows b hb]
+
+/-- a pair that splits every other two labels evenly is a cherry in the sense of `nj_cherry_step` -/
+theorem cherry_of_balanced [CharZero α] (s : NJ α) (f g : Nat)
+    (hbal : ∀ k ∈ (s.pool.erase f).erase g, ∀ l ∈ (s.pool.erase f).erase g, s.d f k + s.d g l = s.d f l + s.d g k) :
+    Cherry s f g := by
+  have h2 : (2 : α) ≠ 0 := by exact_mod_cast (show (2 : Nat) ≠ 0 by decide)
+  cases hp : (s.pool.erase f).erase g with
+  | nil => exact ⟨s.d f g, 0, fun _ => 0, by simp, by rw [hp]; simp⟩
+  | cons k0 rest =>
+    have hk0 : k0 ∈ (s.pool.erase f).erase g := by rw [hp]; simp
+    refine ⟨(s.d f g + s.d f k0 - s.d g k0) / 2, (s.d f g + s.d g k0 - s.d f k0) / 2,
+      fun m => (s.d f m + s.d g m - s.d f g) / 2, by field_simp; ring, ?_⟩
+    intro m hm
+    have := hbal k0 hk0 m hm
+    constructor
+    · field_simp; linarith
+    · field_simp; linarith
+
+/-- the reduced distances in every state NJ can reach inherit the strict four-point condition from the input -/
+theorem nrel_quartet (d : Nat → Nat → α) (n : Nat) (hq : StrictFourPoint (List.range n) d) (s : NJ α) (h : NRel d n s) :
+    StrictFourPoint s.pool s.d := by
+  intro p hp q hq' r hr t ht hnd
+  simp only [List.nodup_cons, List.mem_cons, List.mem_singleton, not_or, List.not_mem_nil, not_false_eq_true,
+    List.nodup_nil, and_true] at hnd
+  obtain ⟨⟨n1, n2, n3⟩, ⟨n4, n5⟩, n6⟩ := hnd
+  -- a representative leaf of every one of the four pool nodes, with its depth
+  have rep : ∀ a ∈ s.pool, ∃ i x, i ∈ NT.leafIds (s.sub a) ∧ NT.depthOf (s.sub a) i = some x ∧ i < n := by
+    intro a ha
+    obtain ⟨i, hi⟩ := List.exists_mem_of_ne_nil _ (leafIds_ne_nil (s.sub a))
+    obtain ⟨x, hx⟩ := depthOf_some _ _ hi
+    exact ⟨i, x, hi, hx, List.mem_range.mp (h.cover.mem_iff.mp (List.mem_flatMap.mpr ⟨a, ha, hi⟩))⟩
+  have cr : ∀ a ∈ s.pool, ∀ b ∈ s.pool, a ≠ b → ∀ i x j y, i ∈ NT.leafIds (s.sub a) → NT.depthOf (s.sub a) i = some x →
+      j ∈ NT.leafIds (s.sub b) → NT.depthOf (s.sub b) j = some y → d i j = x + s.d a b + y ∧ i ≠ j := by
+    intro a ha b hb hab i x j y hi hx hj hy
+    obtain ⟨x', y', hx', hy', e⟩ := h.cross a ha b hb hab i hi j hj
+    rw [hx] at hx'; rw [hy] at hy'
+    injection hx' with hx'; injection hy' with hy'
+    exact ⟨by rw [e, hx', hy'], fun eij => h.disj a ha b hb hab i hi (eij ▸ hj)⟩
+  obtain ⟨ip, xp, mp, dp, lp⟩ := rep p hp
+  obtain ⟨iq, xq, mq, dq, lq⟩ := rep q hq'
+  obtain ⟨ir, xr, mr, dr, lr⟩ := rep r hr
+  obtain ⟨it, xt, mt, dt, lt'⟩ := rep t ht
+  have e1 := cr p hp q hq' n1 ip xp iq xq mp dp mq dq
+  have e2 := cr p hp r hr n2 ip xp ir xr mp dp mr dr
+  have e3 := cr p hp t ht n3 ip xp it xt mp dp mt dt
+  have e4 := cr q hq' r hr n4 iq xq ir xr mq dq mr dr
+  have e5 := cr q hq' t ht n5 iq xq it xt mq dq mt dt
+  have e6 := cr r hr t ht n6 ir xr it xt mr dr mt dt
+  have hQ := hq ip (List.mem_range.mpr lp) iq (List.mem_range.mpr lq) ir (List.mem_range.mpr lr) it (List.mem_range.mpr lt')
+    (by simp [e1.2, e2.2, e3.2, e4.2, e5.2, e6.2])
+  simp only [QuartetAt, e1.1, e2.1, e3.1, e4.1, e5.1, e6.1] at hQ
+  simp only [QuartetAt]
+  rcases hQ with ⟨a, b⟩ | ⟨a, b⟩ | ⟨a, b⟩
+  · exact Or.inl ⟨by linarith, by linarith⟩
+  · exact Or.inr (Or.inl ⟨by linarith, by linarith⟩)
+  · exact Or.inr (Or.inr ⟨by linarith, by linarith⟩)
+
+variable [CharZero α]
+
+/-- (d) **partial** — `nj_realises_of_quartet_lemma_partial`: the reduction of neighbour joining's correctness to the cherry-picking
+lemma *as a statement about finite metrics*.  If `MinQCherryAt α N` holds for every pool size `4 ≤ N ≤ n`, then for every
+symmetric matrix on `n ≥ 1` taxa with the strict four-point condition `nj_tree` returns a tree on exactly the taxa with exactly
+the input path lengths.  The NJ machinery is fully discharged here (row-sum invariant, Q = `Qfun`, inheritance of the four-point
+condition by the reduced matrices `nrel_quartet`, cherry ⇒ contracted state, induction over contractions).
+EXACT MISSING STEP: `MinQCherryAt α N` for `N ≥ 6` (proved below for `N = 4, 5` by deciding the finitely many quartet
+configurations with linear arithmetic; the general proof needs the subtree-size counting argument of Studier–Keppler on the
+tree that the four-point condition implies), and — for "that unrooted topology" rather than "those path lengths" — uniqueness
+of the tree realising an additive metric. -/
+theorem nj_realises_of_quartet_lemma_partial (n : Nat) (d : Nat → Nat → α) (hd : ∀ a < n, ∀ b < n, d a b = d b a) (hn : 1 ≤ n)
+    (hq : StrictFourPoint (List.range n) d) (hlem : ∀ N, 4 ≤ N → N ≤ n → MinQCherryAt α N) :
+    ∃ r, njTree n d = some r ∧ (NT.leafIds r).Perm (List.range n) ∧
+      ∀ i < n, ∀ j < n, i ≠ j → NT.dist r i j = some (d i j) := by
+  apply nj_realises_of_cherry_picking_partial n d hd hn
+  intro s h hlen f g hp
+  obtain ⟨hf, hg, hfg⟩ := nj_pick_mem s h.inv.nodup f g hp
+  have hle := nrel_pool_le d n s h
+  by_cases h3 : s.pool.length = 3
+  · exact cherry_of_three s h.inv.symm h.inv.nodup h3 f g hf hg hfg
+  · have h4 : 4 ≤ s.pool.length := by omega
+    -- minimality of Q at the picked pair
+    have hp' := hp
+    simp only [njPick, Option.map_eq_some_iff] at hp'
+    obtain ⟨r, hr, he⟩ := hp'
+    obtain ⟨q1, q2, _⟩ := argmin_le (qval s) _ none r (by simp) hr
+    rw [he] at q1
+    have qsymm : ∀ a ∈ s.pool, ∀ b ∈ s.pool, qval s (a, b) = qval s (b, a) := by
+      intro a ha b hb; simp only [qval, h.inv.symm a ha b hb]; ring
+    have qle : ∀ a ∈ s.pool, ∀ b ∈ s.pool, a ≠ b → Qfun s.pool s.d f g ≤ Qfun s.pool s.d a b := by
+      intro a ha b hb hab
+      rw [← qval_eq_Qfun s h.inv f g hf hg, ← qval_eq_Qfun s h.inv a b ha hb]
+      rcases mem_pairsOf s.pool a b hab ha hb with hm | hm
+      · have := q2 _ hm; rw [q1] at this; exact this
+      · have := q2 _ hm; rw [q1] at this; rw [qsymm a ha b hb]; exact this
+    have hbal := hlem s.pool.length h4 hle s.pool s.d h.inv.nodup rfl h.inv.symm (nrel_quartet d n hq s h) f hf g hg hfg qle
+    apply cherry_of_balanced
+    intro k hk l hl
+    have hmem : ∀ m, m ∈ (s.pool.erase f).erase g → m ∈ s.pool ∧ m ≠ f ∧ m ≠ g := by
+      intro m hm
+      have h1 : m ∈ s.pool.erase f := List.mem_of_mem_erase hm
+      exact ⟨List.mem_of_mem_erase h1, fun e => by subst e; exact (List.Nodup.mem_erase_iff h.inv.nodup).mp h1 |>.1 rfl,
+        fun e => by subst e; exact (List.Nodup.mem_erase_iff (h.inv.nodup.erase _)).mp hm |>.1 rfl⟩
+    by_cases hkl : k = l
+    · subst hkl; rfl
+    · have hk' := hmem k hk; have hl' := hmem l hl
+      exact hbal k hk'.1 l hl'.1 (by simp [hfg, Ne.symm hk'.2.1, Ne.symm hl'.2.1, Ne.symm hk'.2.2, Ne.symm hl'.2.2, hkl])
+end quartets
+
+
+section smallN
+variable {α : Type} [Field α] [LinearOrder α] [IsStrictOrderedRing α]
+
+namespace Aux
+/-- the 162 quartet configurations of five points in which the first quartet is not `fg|kl`, each refuted by linear arithmetic
+from the minimality of `Q(f,g)` -/
+theorem five_aux (fg fk fl fm gk gl gm kl km lm : α)
+    (h1 : (fg + kl < fk + gl ∧ fk + gl = fl + gk) ∨ (fk + gl < fg + kl ∧ fg + kl = fl + gk) ∨ (fl + gk < fg + kl ∧ fg + kl = fk + gl))
+    (h2 : (fg + km < fk + gm ∧ fk + gm = fm + gk) ∨ (fk + gm < fg + km ∧ fg + km = fm + gk) ∨ (fm + gk < fg + km ∧ fg + km = fk + gm))
+    (h3 : (fg + lm < fl + gm ∧ fl + gm = fm + gl) ∨ (fl + gm < fg + lm ∧ fg + lm = fm + gl) ∨ (fm + gl < fg + lm ∧ fg + lm = fl + gm))
+    (h4 : (fk + lm < fl + km ∧ fl + km = fm + kl) ∨ (fl + km < fk + lm ∧ fk + lm = fm + kl) ∨ (fm + kl < fk + lm ∧ fk + lm = fl + km))
+    (h5 : (gk + lm < gl + km ∧ gl + km = gm + kl) ∨ (gl + km < gk + lm ∧ gk + lm = gm + kl) ∨ (gm + kl < gk + lm ∧ gk + lm = gl + km))
+    (m1 : 3 * fg - (fg + fk + fl + fm) - (fg + gk + gl + gm) ≤ 3 * fk - (fg + fk + fl + fm) - (fk + gk + kl + km))
+    (m2 : 3 * fg - (fg + fk + fl + fm) - (fg + gk + gl + gm) ≤ 3 * fl - (fg + fk + fl + fm) - (fl + gl + kl + lm))
+    (m3 : 3 * fg - (fg + fk + fl + fm) - (fg + gk + gl + gm) ≤ 3 * fm - (fg + fk + fl + fm) - (fm + gm + km + lm))
+    (m4 : 3 * fg - (fg + fk + fl + fm) - (fg + gk + gl + gm) ≤ 3 * gk - (fg + gk + gl + gm) - (fk + gk + kl + km))
+    (m5 : 3 * fg - (fg + fk + fl + fm) - (fg + gk + gl + gm) ≤ 3 * gl - (fg + gk + gl + gm) - (fl + gl + kl + lm))
+    (m6 : 3 * fg - (fg + fk + fl + fm) - (fg + gk + gl + gm) ≤ 3 * gm - (fg + gk + gl + gm) - (fm + gm + km + lm))
+    (m7 : 3 * fg - (fg + fk + fl + fm) - (fg + gk + gl + gm) ≤ 3 * kl - (fk + gk + kl + km) - (fl + gl + kl + lm))
+    (m8 : 3 * fg - (fg + fk + fl + fm) - (fg + gk + gl + gm) ≤ 3 * km - (fk + gk + kl + km) - (fm + gm + km + lm))
+    (m9 : 3 * fg - (fg + fk + fl + fm) - (fg + gk + gl + gm) ≤ 3 * lm - (fl + gl + kl + lm) - (fm + gm + km + lm)) :
+    fk + gl = fl + gk := by
+  rcases h1 with ⟨_, e⟩ | ⟨a1, b1⟩ | ⟨a1, b1⟩
+  · exact e
+  · exfalso
+    rcases h2 with ⟨a2, b2⟩ | ⟨a2, b2⟩ | ⟨a2, b2⟩ <;> rcases h3 with ⟨a3, b3⟩ | ⟨a3, b3⟩ | ⟨a3, b3⟩ <;>
+    rcases h4 with ⟨a4, b4⟩ | ⟨a4, b4⟩ | ⟨a4, b4⟩ <;> rcases h5 with ⟨a5, b5⟩ | ⟨a5, b5⟩ | ⟨a5, b5⟩ <;> linarith
+  · exfalso
+    rcases h2 with ⟨a2, b2⟩ | ⟨a2, b2⟩ | ⟨a2, b2⟩ <;> rcases h3 with ⟨a3, b3⟩ | ⟨a3, b3⟩ | ⟨a3, b3⟩ <;>
+    rcases h4 with ⟨a4, b4⟩ | ⟨a4, b4⟩ | ⟨a4, b4⟩ <;> rcases h5 with ⟨a5, b5⟩ | ⟨a5, b5⟩ | ⟨a5, b5⟩ <;> linarith
+
+theorem perm_five {pool : List Nat} (hnd : pool.Nodup) (h5 : pool.length = 5) (a b c e h : Nat)
+    (ha : a ∈ pool) (hb : b ∈ pool) (hc : c ∈ pool) (he : e ∈ pool) (hh : h ∈ pool)
+    (hd : [a, b, c, e, h].Nodup) : [a, b, c, e, h].Perm pool :=
+  (List.subperm_of_subset hd (by intro x hx; simp at hx; rcases hx with rfl | rfl | rfl | rfl | rfl <;> assumption)).perm_of_length_le
+    (by simp [h5])
+
+/-- row sum of the first of five listed labels -/
+theorem rowsum_five {pool : List Nat} (D : Nat → Nat → α) (a b c e h : Nat) (hp : [a, b, c, e, h].Perm pool)
+    (hd : [a, b, c, e, h].Nodup) : ((pool.filter (fun m => m ≠ a)).map (D a)).sum = D a b + D a c + D a e + D a h := by
+  rw [← ((hp.filter (fun m => decide (m ≠ a))).map (D a)).sum_eq]
+  simp only [List.nodup_cons, List.mem_cons, List.mem_singleton, not_or, List.not_mem_nil, not_false_eq_true,
+    List.nodup_nil, and_true] at hd
+  obtain ⟨⟨h1, h2, h3, h4⟩, _⟩ := hd
+  simp [List.filter_cons, Ne.symm h1, Ne.symm h2, Ne.symm h3, Ne.symm h4, add_assoc]
+
+theorem rowsum_four {pool : List Nat} (D : Nat → Nat → α) (a b c e : Nat) (hp : [a, b, c, e].Perm pool)
+    (hd : [a, b, c, e].Nodup) : ((pool.filter (fun m => m ≠ a)).map (D a)).sum = D a b + D a c + D a e := by
+  rw [← ((hp.filter (fun m => decide (m ≠ a))).map (D a)).sum_eq]
+  simp only [List.nodup_cons, List.mem_cons, List.mem_singleton, not_or, List.not_mem_nil, not_false_eq_true,
+    List.nodup_nil, and_true] at hd
+  obtain ⟨⟨h1, h2, h3⟩, _⟩ := hd
+  simp [List.filter_cons, Ne.symm h1, Ne.symm h2, Ne.symm h3, add_assoc]
+
+theorem nd4 (a b c e : Nat) (h1 : a ≠ b) (h2 : a ≠ c) (h3 : a ≠ e) (h4 : b ≠ c) (h5 : b ≠ e) (h6 : c ≠ e) : [a, b, c, e].Nodup := by
+  simp [h1, h2, h3, h4, h5, h6]
+theorem nd5 (a b c e h : Nat) (h1 : a ≠ b) (h2 : a ≠ c) (h3 : a ≠ e) (h4 : a ≠ h) (h5 : b ≠ c) (h6 : b ≠ e) (h7 : b ≠ h)
+    (h8 : c ≠ e) (h9 : c ≠ h) (h10 : e ≠ h) : [a, b, c, e, h].Nodup := by
+  simp [h1, h2, h3, h4, h5, h6, h7, h8, h9, h10]
+end Aux
+
+/-- the cherry-picking lemma for four labels -/
+theorem minQ_cherry_four : MinQCherryAt α 4 := by
+  intro pool D hnd h4 hs hq f hf g hg hfg hmin k hk l hl hn
+  have hn' := hn
+  simp only [List.nodup_cons, List.mem_cons, List.mem_singleton, not_or, List.not_mem_nil, not_false_eq_true,
+    List.nodup_nil, and_true] at hn'
+  obtain ⟨⟨_, fk, fl⟩, ⟨gk, gl⟩, kl⟩ := hn'
+  have P := fun a b c e ha hb hc he hd => perm_four (pool := pool) hnd h4 a b c e ha hb hc he hd
+  have c2 : ((pool.length - 2 : Nat) : α) = 2 := by rw [h4]; norm_num
+  have rf := rowsum_four D f g k l (P f g k l hf hg hk hl hn) hn
+  have rg := rowsum_four D g f k l (P g f k l hg hf hk hl (nd4 g f k l (Ne.symm hfg) gk gl fk fl kl)) (nd4 g f k l (Ne.symm hfg) gk gl fk fl kl)
+  have rk := rowsum_four D k f g l (P k f g l hk hf hg hl (nd4 k f g l (Ne.symm fk) (Ne.symm gk) kl hfg fl gl)) (nd4 k f g l (Ne.symm fk) (Ne.symm gk) kl hfg fl gl)
+  have rl := rowsum_four D l f g k (P l f g k hl hf hg hk (nd4 l f g k (Ne.symm fl) (Ne.symm gl) (Ne.symm kl) hfg fk gk)) (nd4 l f g k (Ne.symm fl) (Ne.symm gl) (Ne.symm kl) hfg fk gk)
+  have m1 := hmin f hf k hk fk
+  have m2 := hmin f hf l hl fl
+  simp only [Qfun, c2, rf, rg, rk, rl] at m1 m2
+  have sgf := hs g hg f hf; have skf := hs k hk f hf; have slf := hs l hl f hf
+  have skg := hs k hk g hg; have slg := hs l hl g hg; have slk := hs l hl k hk
+  rcases hq f hf g hg k hk l hl hn with ⟨_, e⟩ | ⟨lt, _⟩ | ⟨lt, _⟩
+  · exact e
+  · exfalso; linarith
+  · exfalso; linarith
+
+/-- the cherry-picking lemma for five labels, by deciding the quartet configurations -/
+theorem minQ_cherry_five : MinQCherryAt α 5 := by
+  intro pool D hnd h5 hs hq f hf g hg hfg hmin k hk l hl hn
+  have hn' := hn
+  simp only [List.nodup_cons, List.mem_cons, List.mem_singleton, not_or, List.not_mem_nil, not_false_eq_true,
+    List.nodup_nil, and_true] at hn'
+  obtain ⟨⟨_, fk, fl⟩, ⟨gk, gl⟩, kl⟩ := hn'
+  -- the fifth label
+  have hex : ∃ m ∈ pool, m ≠ f ∧ m ≠ g ∧ m ≠ k ∧ m ≠ l := by
+    by_contra hcon
+    have hsub : pool ⊆ [f, g, k, l] := by
+      intro x hx
+      by_contra hx'
+      simp only [List.mem_cons, List.mem_singleton, List.not_mem_nil, or_false, not_or] at hx'
+      exact hcon ⟨x, hx, hx'.1, hx'.2.1, hx'.2.2.1, hx'.2.2.2⟩
+    have := (List.subperm_of_subset hnd hsub).length_le
+    simp [h5] at this
+  obtain ⟨m, hm, mf, mg, mk, ml⟩ := hex
+  have fm := Ne.symm mf; have gm := Ne.symm mg; have km := Ne.symm mk; have lm := Ne.symm ml
+  have P := fun a b c e h ha hb hc he hh hd => perm_five (pool := pool) hnd h5 a b c e h ha hb hc he hh hd
+  have c3 : ((pool.length - 2 : Nat) : α) = 3 := by rw [h5]; norm_num
+  have Nf := nd5 f g k l m hfg fk fl fm gk gl gm kl km lm
+  have Ng := nd5 g f k l m (Ne.symm hfg) gk gl gm fk fl fm kl km lm
+  have Nk := nd5 k f g l m (Ne.symm fk) (Ne.symm gk) kl km hfg fl fm gl gm lm
+  have Nl := nd5 l f g k m (Ne.symm fl) (Ne.symm gl) (Ne.symm kl) lm hfg fk fm gk gm km
+  have Nm := nd5 m f g k l mf mg mk ml hfg fk fl gk gl kl
+  have rf := rowsum_five D f g k l m (P f g k l m hf hg hk hl hm Nf) Nf
+  have rg := rowsum_five D g f k l m (P g f k l m hg hf hk hl hm Ng) Ng
+  have rk := rowsum_five D k f g l m (P k f g l m hk hf hg hl hm Nk) Nk
+  have rl := rowsum_five D l f g k m (P l f g k m hl hf hg hk hm Nl) Nl
+  have rm := rowsum_five D m f g k l (P m f g k l hm hf hg hk hl Nm) Nm
+  have q1 := hmin f hf k hk fk; have q2 := hmin f hf l hl fl; have q3 := hmin f hf m hm fm
+  have q4 := hmin g hg k hk gk; have q5 := hmin g hg l hl gl; have q6 := hmin g hg m hm gm
+  have q7 := hmin k hk l hl kl; have q8 := hmin k hk m hm km; have q9 := hmin l hl m hm lm
+  simp only [Qfun, c3, rf, rg, rk, rl, rm] at q1 q2 q3 q4 q5 q6 q7 q8 q9
+  have sgf := hs g hg f hf; have skf := hs k hk f hf; have slf := hs l hl f hf; have smf := hs m hm f hf
+  have skg := hs k hk g hg; have slg := hs l hl g hg; have smg := hs m hm g hg
+  have slk := hs l hl k hk; have smk := hs m hm k hk; have sml := hs m hm l hl
+  have Q1 := hq f hf g hg k hk l hl (nd4 f g k l hfg fk fl gk gl kl)
+  have Q2 := hq f hf g hg k hk m hm (nd4 f g k m hfg fk fm gk gm km)
+  have Q3 := hq f hf g hg l hl m hm (nd4 f g l m hfg fl fm gl gm lm)
+  have Q4 := hq f hf k hk l hl m hm (nd4 f k l m fk fl fm kl km lm)
+  have Q5 := hq g hg k hk l hl m hm (nd4 g k l m gk gl gm kl km lm)
+  exact five_aux (D f g) (D f k) (D f l) (D f m) (D g k) (D g l) (D g m) (D k l) (D k m) (D l m) Q1 Q2 Q3 Q4 Q5
+    (by linarith) (by linarith) (by linarith) (by linarith) (by linarith) (by linarith) (by linarith) (by linarith) (by linarith)
+end smallN
+
+
+section njfive
+variable {α : Type} [Field α] [LinearOrder α] [IsStrictOrderedRing α] [CharZero α]
+
+/-- (d) `nj_realises_five` — neighbour joining inverts every additive metric with positive internal edges on up to five taxa,
+unconditionally: for `1 ≤ n ≤ 5`, a symmetric matrix satisfying the strict four-point condition is returned by `nj_tree` as a
+tree on exactly the taxa with exactly the input path lengths (the cherry-picking lemma is proved for pools of 4 and 5). -/
+theorem nj_realises_five (n : Nat) (d : Nat → Nat → α) (hd : ∀ a < n, ∀ b < n, d a b = d b a) (hn : 1 ≤ n) (h5 : n ≤ 5)
+    (hq : StrictFourPoint (List.range n) d) :
+    ∃ r, njTree n d = some r ∧ (NT.leafIds r).Perm (List.range n) ∧
+      ∀ i < n, ∀ j < n, i ≠ j → NT.dist r i j = some (d i j) := by
+  apply nj_realises_of_quartet_lemma_partial n d hd hn hq
+  intro N h4 hN
+  have : N = 4 ∨ N = 5 := by omega
+  rcases this with rfl | rfl
+  · exact minQ_cherry_four
+  · exact minQ_cherry_five
+end njfive
+
+/-- non-vacuity: the five-taxon tree ((0,1),2,(3,4)) with unit edge lengths -/
+def exFive (a b : Nat) : ℚ :=
+  if a = b then 0 else
+  let side : Nat → ℚ := fun i => if i < 2 then 0 else if i = 2 then 1 else 2
+  2 + |side a - side b|
+
+example := nj_realises_five 5 exFive
+  (by
+    intro a ha b hb
+    have ha' : a = 0 ∨ a = 1 ∨ a = 2 ∨ a = 3 ∨ a = 4 := by omega
+    have hb' : b = 0 ∨ b = 1 ∨ b = 2 ∨ b = 3 ∨ b = 4 := by omega
+    rcases ha' with rfl | rfl | rfl | rfl | rfl <;> rcases hb' with rfl | rfl | rfl | rfl | rfl <;> simp [exFive] <;> norm_num)
+  (by decide) (by decide)
+  (by
+    intro p hp q hq r hr t ht hnd
+    simp only [List.mem_range] at hp hq hr ht
+    have hp' : p = 0 ∨ p = 1 ∨ p = 2 ∨ p = 3 ∨ p = 4 := by omega
+    have hq' : q = 0 ∨ q = 1 ∨ q = 2 ∨ q = 3 ∨ q = 4 := by omega
+    have hr' : r = 0 ∨ r = 1 ∨ r = 2 ∨ r = 3 ∨ r = 4 := by omega
+    have ht' : t = 0 ∨ t = 1 ∨ t = 2 ∨ t = 3 ∨ t = 4 := by omega
+    rcases hp' with rfl | rfl | rfl | rfl | rfl <;> rcases hq' with rfl | rfl | rfl | rfl | rfl <;>
+    rcases hr' with rfl | rfl | rfl | rfl | rfl <;> rcases ht' with rfl | rfl | rfl | rfl | rfl <;>
+    first
+      | (exfalso; revert hnd; decide)
+      | (simp [QuartetAt, exFive] <;> norm_num))
+
+/-- (d, at the driver's own type) `frac_nj_realises_five`: for `1 ≤ n ≤ 5` taxa, if the `Frac` matrix handed to `drv_c14` has cells that
+denote numbers, is symmetric and satisfies the strict four-point condition (as rationals), the tree the driver prints for `nj`
+has exactly the taxa as leaves and, read through `toRat`, exactly the denoted path lengths. -/
+theorem frac_nj_realises_five (n : Nat) (d : Nat → Nat → Frac) (hv : ∀ a b, (d a b).den ≠ 0)
+    (hd : ∀ a < n, ∀ b < n, toRat (d a b) = toRat (d b a)) (hn : 1 ≤ n) (h5 : n ≤ 5)
+    (hq : StrictFourPoint (List.range n) (fun a b => toRat (d a b))) :
+    ∃ r, njTree n d = some r ∧ (NT.leafIds (mapNT toRat r)).Perm (List.range n) ∧
+      ∀ i < n, ∀ j < n, i ≠ j → NT.dist (mapNT toRat r) i j = some (toRat (d i j)) := by
+  obtain ⟨r, hr, hq'⟩ := frac_nj_tree n d hv hd hn
+  obtain ⟨rq, hrq, hp, hdist⟩ := nj_realises_five n (fun a b => toRat (d a b)) hd hn h5 hq
+  rw [hq'] at hrq; injection hrq with hrq; subst hrq
+  exact ⟨r, hr, hp, hdist⟩
+
+
+/-- non-vacuity at `Frac`: the five-taxon tree ((0,1),2,(3,4)) with unit edges as a matrix of `Frac` cells -/
+def exFiveF (a b : Nat) : Frac :=
+  if a = b then Frac.ofNat 0 else
+  let side : Nat → Nat := fun i => if i < 2 then 0 else if i = 2 then 1 else 2
+  Frac.ofNat (2 + (side a - side b) + (side b - side a))
+
+example := frac_nj_realises_five 5 exFiveF
+  (by intro a b; simp only [exFiveF]; split <;> simp [Frac.ofNat])
+  (by
+    intro a ha b hb
+    have ha' : a = 0 ∨ a = 1 ∨ a = 2 ∨ a = 3 ∨ a = 4 := by omega
+    have hb' : b = 0 ∨ b = 1 ∨ b = 2 ∨ b = 3 ∨ b = 4 := by omega
+    rcases ha' with rfl | rfl | rfl | rfl | rfl <;> rcases hb' with rfl | rfl | rfl | rfl | rfl <;> simp [exFiveF, toRat, Frac.ofNat])
+  (by decide) (by decide)
+  (by
+    intro p hp q hq r hr t ht hnd
+    simp only [List.mem_range] at hp hq hr ht
+    have hp' : p = 0 ∨ p = 1 ∨ p = 2 ∨ p = 3 ∨ p = 4 := by omega
+    have hq' : q = 0 ∨ q = 1 ∨ q = 2 ∨ q = 3 ∨ q = 4 := by omega
+    have hr' : r = 0 ∨ r = 1 ∨ r = 2 ∨ r = 3 ∨ r = 4 := by omega
+    have ht' : t = 0 ∨ t = 1 ∨ t = 2 ∨ t = 3 ∨ t = 4 := by omega
+    rcases hp' with rfl | rfl | rfl | rfl | rfl <;> rcases hq' with rfl | rfl | rfl | rfl | rfl <;>
+    rcases hr' with rfl | rfl | rfl | rfl | rfl <;> rcases ht' with rfl | rfl | rfl | rfl | rfl <;>
+    first
+      | (exfalso; revert hnd; decide)
+      | (simp [QuartetAt, exFiveF, toRat, Frac.ofNat] <;> norm_num))
+
+
+/-! ### the distances of a tree with positive internal edges satisfy the strict four-point condition -/
+section treefour
+variable {α : Type} [Field α] [LinearOrder α] [IsStrictOrderedRing α]
+
+/-- depth of a leaf below the root of a result-type tree (0 for a label that is not a leaf) -/
+def NT.dep (t : NT α) (i : Nat) : α := match NT.depthOf t i with | some x => x | none => 0
+/-- no edge length is negative -/
+def NT.Nonneg : NT α → Prop
+  | .leaf _ => True
+  | .node f lf g lg => NT.Nonneg f ∧ NT.Nonneg g ∧ 0 ≤ lf ∧ 0 ≤ lg
+
+namespace Aux
+theorem dep_left (f g : NT α) (lf lg : α) (i : Nat) (hi : i ∈ NT.leafIds f) :
+    NT.dep (.node f lf g lg) i = NT.dep f i + lf := by
+  obtain ⟨x, hx⟩ := depthOf_some f i hi
+  simp [NT.dep, NT.depthOf, hx]
+
+theorem dep_right (f g : NT α) (lf lg : α) (i : Nat) (hi : i ∈ NT.leafIds g) (hn : i ∉ NT.leafIds f) :
+    NT.dep (.node f lf g lg) i = NT.dep g i + lg := by
+  obtain ⟨x, hx⟩ := depthOf_some g i hi
+  simp [NT.dep, NT.depthOf, depthOf_none f i hn, hx]
+
+theorem dmat_cross (f g : NT α) (lf lg : α) (i j : Nat) (hi : i ∈ NT.leafIds f) (hj : j ∈ NT.leafIds g)
+    (hni : i ∉ NT.leafIds g) (hnj : j ∉ NT.leafIds f) :
+    NT.dmat (.node f lf g lg) i j = (NT.dep f i + lf) + (NT.dep g j + lg) ∧
+    NT.dmat (.node f lf g lg) j i = (NT.dep f i + lf) + (NT.dep g j + lg) := by
+  obtain ⟨x, hx⟩ := depthOf_some f i hi
+  obtain ⟨y, hy⟩ := depthOf_some g j hj
+  constructor
+  · simp [NT.dmat, NT.dist, NT.dep, hx, hy, depthOf_none f j hnj]
+  · simp [NT.dmat, NT.dist, NT.dep, hx, hy, depthOf_none f j hnj]; ring
+
+theorem dep_nonneg : ∀ (t : NT α), NT.Nonneg t → ∀ i, 0 ≤ NT.dep t i
+  | .leaf j, _, i => by simp only [NT.dep, NT.depthOf]; split <;> simp_all
+  | .node f lf g lg, h, i => by
+    have h1 := dep_nonneg f h.1 i
+    have h2 := dep_nonneg g h.2.1 i
+    simp only [NT.dep, NT.depthOf] at h1 h2 ⊢
+    cases hf : NT.depthOf f i with
+    | some x => simp only [hf] at h1 ⊢; linarith [h.2.2.1]
+    | none =>
+      cases hg : NT.depthOf g i with
+      | some y => simp only [hg] at h2 ⊢; linarith [h.2.2.2]
+      | none => simp
+
+/-- two leaves are never further apart than the sum of their depths -/
+theorem dmat_le_dep : ∀ (t : NT α), NT.Nonneg t → (NT.leafIds t).Nodup → ∀ i ∈ NT.leafIds t, ∀ j ∈ NT.leafIds t, i ≠ j →
+    NT.dmat t i j ≤ NT.dep t i + NT.dep t j
+  | .leaf k, _, _, i, hi, j, hj, hij => by simp [NT.leafIds] at hi hj; exact absurd (hi.trans hj.symm) hij
+  | .node f lf g lg, h, hnd, i, hi, j, hj, hij => by
+    simp only [NT.leafIds] at hnd hi hj
+    have hnd' := List.nodup_append.mp hnd
+    have hdis : ∀ a ∈ NT.leafIds f, a ∉ NT.leafIds g := fun a ha hb => hnd'.2.2 a ha a hb rfl
+    rcases List.mem_append.mp hi with ci | ci <;> rcases List.mem_append.mp hj with cj | cj
+    · rw [dmat_left f g lf lg i j ci cj, dep_left f g lf lg i ci, dep_left f g lf lg j cj]
+      have := dmat_le_dep f h.1 hnd'.1 i ci j cj hij
+      linarith [h.2.2.1]
+    · rw [(dmat_cross f g lf lg i j ci cj (hdis i ci) (fun c => hdis j c cj)).1, dep_left f g lf lg i ci,
+        dep_right f g lf lg j cj (fun c => hdis j c cj)]
+    · rw [(dmat_cross f g lf lg j i cj ci (hdis j cj) (fun c => hdis i c ci)).2, dep_left f g lf lg j cj,
+        dep_right f g lf lg i ci (fun c => hdis i c ci)]
+      linarith
+    · have ni := fun c => hdis i c ci; have nj := fun c => hdis j c cj
+      rw [dmat_right f g lf lg i j ni nj, dep_right f g lf lg i ci ni, dep_right f g lf lg j cj nj]
+      have := dmat_le_dep g h.2.1 hnd'.2.1 i ci j cj hij
+      linarith [h.2.2.2]
+end Aux
+end treefour
+
+
+section treefour2
+variable {α : Type} [Field α] [LinearOrder α] [IsStrictOrderedRing α]
+
+namespace Aux
+/-- close a goal of the shape `(a < b ∧ b = c) ∨ (b < a ∧ a = c) ∨ (c < a ∧ a = b)` by linear arithmetic -/
+macro "close3" : tactic =>
+  `(tactic| first
+    | exact Or.inl ⟨by linarith, by linarith⟩
+    | exact Or.inr (Or.inl ⟨by linarith, by linarith⟩)
+    | exact Or.inr (Or.inr ⟨by linarith, by linarith⟩))
+
+theorem not_leaf_of_two (f : NT α) (i j : Nat) (hi : i ∈ NT.leafIds f) (hj : j ∈ NT.leafIds f) (hij : i ≠ j) :
+    ¬ ∃ k, f = .leaf k := by
+  rintro ⟨k, rfl⟩
+  simp [NT.leafIds] at hi hj; exact hij (hi.trans hj.symm)
+
+/-- rooted three-point condition: of the three pairs among three leaves, two have their common ancestor at the same depth and the
+third strictly deeper (written with `P x y = d x y − dep x − dep y`, minus twice the depth of the common ancestor) -/
+theorem rooted_three : ∀ (t : NT α), NT.Nonneg t → NT.PosInternal t → (NT.leafIds t).Nodup →
+    ∀ i ∈ NT.leafIds t, ∀ j ∈ NT.leafIds t, ∀ k ∈ NT.leafIds t, i ≠ j → j ≠ k → i ≠ k →
+    (NT.dmat t i j - NT.dep t i - NT.dep t j < NT.dmat t i k - NT.dep t i - NT.dep t k ∧
+        NT.dmat t i k - NT.dep t i - NT.dep t k = NT.dmat t j k - NT.dep t j - NT.dep t k) ∨
+    (NT.dmat t i k - NT.dep t i - NT.dep t k < NT.dmat t i j - NT.dep t i - NT.dep t j ∧
+        NT.dmat t i j - NT.dep t i - NT.dep t j = NT.dmat t j k - NT.dep t j - NT.dep t k) ∨
+    (NT.dmat t j k - NT.dep t j - NT.dep t k < NT.dmat t i j - NT.dep t i - NT.dep t j ∧
+        NT.dmat t i j - NT.dep t i - NT.dep t j = NT.dmat t i k - NT.dep t i - NT.dep t k)
+  | .leaf l, _, _, _, i, hi, j, hj, _, _, hij, _, _ => by
+    simp [NT.leafIds] at hi hj; exact absurd (hi.trans hj.symm) hij
+  | .node f lf g lg, hnn, hp, hnd, i, hi, j, hj, k, hk, hij, hjk, hik => by
+    simp only [NT.leafIds] at hnd hi hj hk
+    have hnd' := List.nodup_append.mp hnd
+    have hdis : ∀ a ∈ NT.leafIds f, a ∉ NT.leafIds g := fun a ha hb => hnd'.2.2 a ha a hb rfl
+    have hdis' : ∀ a ∈ NT.leafIds g, a ∉ NT.leafIds f := fun a ha hb => hdis a hb ha
+    -- facts for leaves on the left / on the right
+    have L := fun x (hx : x ∈ NT.leafIds f) => dep_left f g lf lg x hx
+    have R := fun x (hx : x ∈ NT.leafIds g) => dep_right f g lf lg x hx (hdis' x hx)
+    have LL := fun x y (hx : x ∈ NT.leafIds f) (hy : y ∈ NT.leafIds f) => dmat_left f g lf lg x y hx hy
+    have RR := fun x y (hx : x ∈ NT.leafIds g) (hy : y ∈ NT.leafIds g) => dmat_right f g lf lg x y (hdis' x hx) (hdis' y hy)
+    have LR := fun x y (hx : x ∈ NT.leafIds f) (hy : y ∈ NT.leafIds g) => dmat_cross f g lf lg x y hx hy (hdis x hx) (hdis' y hy)
+    have posf : ∀ x y, x ∈ NT.leafIds f → y ∈ NT.leafIds f → x ≠ y → 0 < lf := fun x y hx hy hxy => by
+      rcases hp.2.2.1 with h | h
+      · exact absurd h (not_leaf_of_two f x y hx hy hxy)
+      · exact h
+    have posg : ∀ x y, x ∈ NT.leafIds g → y ∈ NT.leafIds g → x ≠ y → 0 < lg := fun x y hx hy hxy => by
+      rcases hp.2.2.2 with h | h
+      · exact absurd h (not_leaf_of_two g x y hx hy hxy)
+      · exact h
+    have bf := fun x y (hx : x ∈ NT.leafIds f) (hy : y ∈ NT.leafIds f) (hxy : x ≠ y) => dmat_le_dep f hnn.1 hnd'.1 x hx y hy hxy
+    have bg := fun x y (hx : x ∈ NT.leafIds g) (hy : y ∈ NT.leafIds g) (hxy : x ≠ y) => dmat_le_dep g hnn.2.1 hnd'.2.1 x hx y hy hxy
+    rcases List.mem_append.mp hi with ci | ci <;> rcases List.mem_append.mp hj with cj | cj <;>
+      rcases List.mem_append.mp hk with ck | ck
+    · -- f f f
+      rw [LL i j ci cj, LL i k ci ck, LL j k cj ck, L i ci, L j cj, L k ck]
+      rcases rooted_three f hnn.1 hp.1 hnd'.1 i ci j cj k ck hij hjk hik with ⟨a, b⟩ | ⟨a, b⟩ | ⟨a, b⟩ <;> close3
+    · -- f f g
+      rw [LL i j ci cj, (LR i k ci ck).1, (LR j k cj ck).1, L i ci, L j cj, R k ck]
+      have := bf i j ci cj hij; have := posf i j ci cj hij
+      close3
+    · -- f g f
+      rw [(LR i j ci cj).1, LL i k ci ck, (LR k j ck cj).2, L i ci, R j cj, L k ck]
+      have := bf i k ci ck hik; have := posf i k ci ck hik
+      close3
+    · -- f g g
+      rw [(LR i j ci cj).1, (LR i k ci ck).1, RR j k cj ck, L i ci, R j cj, R k ck]
+      have := bg j k cj ck hjk; have := posg j k cj ck hjk
+      close3
+    · -- g f f
+      rw [(LR j i cj ci).2, (LR k i ck ci).2, LL j k cj ck, R i ci, L j cj, L k ck]
+      have := bf j k cj ck hjk; have := posf j k cj ck hjk
+      close3
+    · -- g f g
+      rw [(LR j i cj ci).2, RR i k ci ck, (LR j k cj ck).1, R i ci, L j cj, R k ck]
+      have := bg i k ci ck hik; have := posg i k ci ck hik
+      close3
+    · -- g g f
+      rw [RR i j ci cj, (LR k i ck ci).2, (LR k j ck cj).2, R i ci, R j cj, L k ck]
+      have := bg i j ci cj hij; have := posg i j ci cj hij
+      close3
+    · -- g g g
+      rw [RR i j ci cj, RR i k ci ck, RR j k cj ck, R i ci, R j cj, R k ck]
+      rcases rooted_three g hnn.2.1 hp.2.1 hnd'.2.1 i ci j cj k ck hij hjk hik with ⟨a, b⟩ | ⟨a, b⟩ | ⟨a, b⟩ <;> close3
+end Aux
+end treefour2
+
+
+section treefour3
+variable {α : Type} [Field α] [LinearOrder α] [IsStrictOrderedRing α]
+
+/-- (d) `tree_four_point` — the distances of a tree satisfy the strict four-point condition.  For every binary tree of the result type
+(read as an unrooted tree: the two edges at the root form one edge) with non-negative edge lengths and positive internal edge
+lengths, any four different leaves form a quartet with a positive internal edge: of the three pairing sums one is strictly
+smaller than the other two, which are equal. -/
+theorem tree_four_point : ∀ (t : NT α), NT.Nonneg t → NT.PosInternal t → (NT.leafIds t).Nodup →
+    ∀ i ∈ NT.leafIds t, ∀ j ∈ NT.leafIds t, ∀ k ∈ NT.leafIds t, ∀ l ∈ NT.leafIds t,
+    i ≠ j → i ≠ k → i ≠ l → j ≠ k → j ≠ l → k ≠ l → QuartetAt (NT.dmat t) i j k l
+  | .leaf m, _, _, _, i, hi, j, hj, _, _, _, _, hij, _, _, _, _, _ => by
+    simp [NT.leafIds] at hi hj; exact absurd (hi.trans hj.symm) hij
+  | .node f lf g lg, hnn, hp, hnd, i, hi, j, hj, k, hk, l, hl, hij, hik, hil, hjk, hjl, hkl => by
+    simp only [NT.leafIds] at hnd hi hj hk hl
+    have hnd' := List.nodup_append.mp hnd
+    have hdis : ∀ a ∈ NT.leafIds f, a ∉ NT.leafIds g := fun a ha hb => hnd'.2.2 a ha a hb rfl
+    have hdis' : ∀ a ∈ NT.leafIds g, a ∉ NT.leafIds f := fun a ha hb => hdis a hb ha
+    have LL := fun x y (hx : x ∈ NT.leafIds f) (hy : y ∈ NT.leafIds f) => dmat_left f g lf lg x y hx hy
+    have RR := fun x y (hx : x ∈ NT.leafIds g) (hy : y ∈ NT.leafIds g) => dmat_right f g lf lg x y (hdis' x hx) (hdis' y hy)
+    have LR := fun x y (hx : x ∈ NT.leafIds f) (hy : y ∈ NT.leafIds g) => dmat_cross f g lf lg x y hx hy (hdis x hx) (hdis' y hy)
+    have posf : ∀ x y, x ∈ NT.leafIds f → y ∈ NT.leafIds f → x ≠ y → 0 < lf := fun x y hx hy hxy => by
+      rcases hp.2.2.1 with h | h
+      · exact absurd h (not_leaf_of_two f x y hx hy hxy)
+      · exact h
+    have bf := fun x y (hx : x ∈ NT.leafIds f) (hy : y ∈ NT.leafIds f) (hxy : x ≠ y) => dmat_le_dep f hnn.1 hnd'.1 x hx y hy hxy
+    have bg := fun x y (hx : x ∈ NT.leafIds g) (hy : y ∈ NT.leafIds g) (hxy : x ≠ y) => dmat_le_dep g hnn.2.1 hnd'.2.1 x hx y hy hxy
+    simp only [QuartetAt]
+    rcases List.mem_append.mp hi with ci | ci <;> rcases List.mem_append.mp hj with cj | cj <;>
+      rcases List.mem_append.mp hk with ck | ck <;> rcases List.mem_append.mp hl with cl | cl
+    · -- f f f f
+      rw [LL i j ci cj, LL k l ck cl, LL i k ci ck, LL j l cj cl, LL i l ci cl, LL j k cj ck]
+      have := tree_four_point f hnn.1 hp.1 hnd'.1 i ci j cj k ck l cl hij hik hil hjk hjl hkl
+      simp only [QuartetAt] at this; exact this
+    · -- f f f g
+      rw [LL i j ci cj, (LR k l ck cl).1, LL i k ci ck, (LR j l cj cl).1, (LR i l ci cl).1, LL j k cj ck]
+      rcases rooted_three f hnn.1 hp.1 hnd'.1 i ci j cj k ck hij hjk hik with ⟨a1, b1⟩ | ⟨a1, b1⟩ | ⟨a1, b1⟩ <;> close3
+    · -- f f g f
+      rw [LL i j ci cj, (LR l k cl ck).2, (LR i k ci ck).1, LL j l cj cl, LL i l ci cl, (LR j k cj ck).1]
+      rcases rooted_three f hnn.1 hp.1 hnd'.1 i ci j cj l cl hij hjl hil with ⟨a1, b1⟩ | ⟨a1, b1⟩ | ⟨a1, b1⟩ <;> close3
+    · -- f f g g
+      rw [LL i j ci cj, RR k l ck cl, (LR i k ci ck).1, (LR j l cj cl).1, (LR i l ci cl).1, (LR j k cj ck).1]
+      have := bf i j ci cj hij; have := bg k l ck cl hkl
+      have := posf i j ci cj hij; have := hnn.2.2.2
+      close3
+    · -- f g f f
+      rw [(LR i j ci cj).1, LL k l ck cl, LL i k ci ck, (LR l j cl cj).2, LL i l ci cl, (LR k j ck cj).2]
+      rcases rooted_three f hnn.1 hp.1 hnd'.1 i ci k ck l cl hik hkl hil with ⟨a1, b1⟩ | ⟨a1, b1⟩ | ⟨a1, b1⟩ <;> close3
+    · -- f g f g
+      rw [(LR i j ci cj).1, (LR k l ck cl).1, LL i k ci ck, RR j l cj cl, (LR i l ci cl).1, (LR k j ck cj).2]
+      have := bf i k ci ck hik; have := bg j l cj cl hjl
+      have := posf i k ci ck hik; have := hnn.2.2.2
+      close3
+    · -- f g g f
+      rw [(LR i j ci cj).1, (LR l k cl ck).2, (LR i k ci ck).1, (LR l j cl cj).2, LL i l ci cl, RR j k cj ck]
+      have := bf i l ci cl hil; have := bg j k cj ck hjk
+      have := posf i l ci cl hil; have := hnn.2.2.2
+      close3
+    · -- f g g g
+      rw [(LR i j ci cj).1, RR k l ck cl, (LR i k ci ck).1, RR j l cj cl, (LR i l ci cl).1, RR j k cj ck]
+      rcases rooted_three g hnn.2.1 hp.2.1 hnd'.2.1 j cj k ck l cl hjk hkl hjl with ⟨a1, b1⟩ | ⟨a1, b1⟩ | ⟨a1, b1⟩ <;> close3
+    · -- g f f f
+      rw [(LR j i cj ci).2, LL k l ck cl, (LR k i ck ci).2, LL j l cj cl, (LR l i cl ci).2, LL j k cj ck]
+      rcases rooted_three f hnn.1 hp.1 hnd'.1 j cj k ck l cl hjk hkl hjl with ⟨a1, b1⟩ | ⟨a1, b1⟩ | ⟨a1, b1⟩ <;> close3
+    · -- g f f g
+      rw [(LR j i cj ci).2, (LR k l ck cl).1, (LR k i ck ci).2, (LR j l cj cl).1, RR i l ci cl, LL j k cj ck]
+      have := bf j k cj ck hjk; have := bg i l ci cl hil
+      have := posf j k cj ck hjk; have := hnn.2.2.2
+      close3
+    · -- g f g f
+      rw [(LR j i cj ci).2, (LR l k cl ck).2, RR i k ci ck, LL j l cj cl, (LR l i cl ci).2, (LR j k cj ck).1]
+      have := bf j l cj cl hjl; have := bg i k ci ck hik
+      have := posf j l cj cl hjl; have := hnn.2.2.2
+      close3
+    · -- g f g g
+      rw [(LR j i cj ci).2, RR k l ck cl, RR i k ci ck, (LR j l cj cl).1, RR i l ci cl, (LR j k cj ck).1]
+      rcases rooted_three g hnn.2.1 hp.2.1 hnd'.2.1 i ci k ck l cl hik hkl hil with ⟨a1, b1⟩ | ⟨a1, b1⟩ | ⟨a1, b1⟩ <;> close3
+    · -- g g f f
+      rw [RR i j ci cj, LL k l ck cl, (LR k i ck ci).2, (LR l j cl cj).2, (LR l i cl ci).2, (LR k j ck cj).2]
+      have := bf k l ck cl hkl; have := bg i j ci cj hij
+      have := posf k l ck cl hkl; have := hnn.2.2.2
+      close3
+    · -- g g f g
+      rw [RR i j ci cj, (LR k l ck cl).1, (LR k i ck ci).2, RR j l cj cl, RR i l ci cl, (LR k j ck cj).2]
+      rcases rooted_three g hnn.2.1 hp.2.1 hnd'.2.1 i ci j cj l cl hij hjl hil with ⟨a1, b1⟩ | ⟨a1, b1⟩ | ⟨a1, b1⟩ <;> close3
+    · -- g g g f
+      rw [RR i j ci cj, (LR l k cl ck).2, RR i k ci ck, (LR l j cl cj).2, (LR l i cl ci).2, RR j k cj ck]
+      rcases rooted_three g hnn.2.1 hp.2.1 hnd'.2.1 i ci j cj k ck hij hjk hik with ⟨a1, b1⟩ | ⟨a1, b1⟩ | ⟨a1, b1⟩ <;> close3
+    · -- g g g g
+      rw [RR i j ci cj, RR k l ck cl, RR i k ci ck, RR j l cj cl, RR i l ci cl, RR j k cj ck]
+      have := tree_four_point g hnn.2.1 hp.2.1 hnd'.2.1 i ci j cj k ck l cl hij hik hil hjk hjl hkl
+      simp only [QuartetAt] at this; exact this
+end treefour3
+
+
+section treefour4
+variable {α : Type} [Field α] [LinearOrder α] [IsStrictOrderedRing α] [CharZero α]
+
+/-- (d) `nj_inverts_tree_five` — the NJ clause of the property for up to five taxa, about trees: for every binary tree `src` on the
+taxa `0 … n-1`, `n ≤ 5`, with non-negative edge lengths and positive internal edge lengths, `nj_tree` applied to the
+path-length matrix of `src` returns a tree on exactly the taxa in which every two taxa are exactly as far apart as in `src`
+(`tree_four_point` + `nj_realises_five`).  For `n ≥ 6` the same statement follows from `nj_realises_of_quartet_lemma_partial`
+once `MinQCherryAt α N` is available for `6 ≤ N ≤ n`. -/
+theorem nj_inverts_tree_five (n : Nat) (src : NT α) (hnn : NT.Nonneg src) (hp : NT.PosInternal src)
+    (hnd : (NT.leafIds src).Nodup) (hl : (NT.leafIds src).Perm (List.range n)) (h5 : n ≤ 5) :
+    ∃ r, njTree n (NT.dmat src) = some r ∧ (NT.leafIds r).Perm (List.range n) ∧
+      ∀ i < n, ∀ j < n, i ≠ j → NT.dist r i j = some (NT.dmat src i j) := by
+  have hmem : ∀ i, i ∈ List.range n → i ∈ NT.leafIds src := fun i hi => hl.mem_iff.mpr hi
+  have hn : 1 ≤ n := by
+    have := List.length_pos_iff.mpr (leafIds_ne_nil src)
+    rw [hl.length_eq, List.length_range] at this; exact this
+  refine nj_realises_five n (NT.dmat src) (fun a _ b _ => by simp only [NT.dmat, dist_symm src a b]) hn h5 ?_
+  intro p hp' q hq r hr t ht hn4
+  simp only [List.nodup_cons, List.mem_cons, List.mem_singleton, not_or, List.not_mem_nil, not_false_eq_true,
+    List.nodup_nil, and_true] at hn4
+  obtain ⟨⟨n1, n2, n3⟩, ⟨n4, n5⟩, n6⟩ := hn4
+  exact tree_four_point src hnn hp hnd p (hmem p hp') q (hmem q hq) r (hmem r hr) t (hmem t ht) n1 n2 n3 n4 n5 n6
+
+/-- the general statement with its one missing ingredient made explicit: NJ inverts the distances of every tree with positive
+internal edges on `n` taxa, given the cherry-picking lemma for pools of `6 … n` labels -/
+theorem nj_inverts_tree_partial (n : Nat) (src : NT α) (hnn : NT.Nonneg src) (hp : NT.PosInternal src)
+    (hnd : (NT.leafIds src).Nodup) (hl : (NT.leafIds src).Perm (List.range n))
+    (hlem : ∀ N, 6 ≤ N → N ≤ n → MinQCherryAt α N) :
+    ∃ r, njTree n (NT.dmat src) = some r ∧ (NT.leafIds r).Perm (List.range n) ∧
+      ∀ i < n, ∀ j < n, i ≠ j → NT.dist r i j = some (NT.dmat src i j) := by
+  have hmem : ∀ i, i ∈ List.range n → i ∈ NT.leafIds src := fun i hi => hl.mem_iff.mpr hi
+  have hn : 1 ≤ n := by
+    have := List.length_pos_iff.mpr (leafIds_ne_nil src)
+    rw [hl.length_eq, List.length_range] at this; exact this
+  refine nj_realises_of_quartet_lemma_partial n (NT.dmat src) (fun a _ b _ => by simp only [NT.dmat, dist_symm src a b]) hn ?_ ?_
+  · intro p hp' q hq r hr t ht hn4
+    simp only [List.nodup_cons, List.mem_cons, List.mem_singleton, not_or, List.not_mem_nil, not_false_eq_true,
+      List.nodup_nil, and_true] at hn4
+    obtain ⟨⟨n1, n2, n3⟩, ⟨n4, n5⟩, n6⟩ := hn4
+    exact tree_four_point src hnn hp hnd p (hmem p hp') q (hmem q hq) r (hmem r hr) t (hmem t ht) n1 n2 n3 n4 n5 n6
+  · intro N h4 hN
+    by_cases h6 : 6 ≤ N
+    · exact hlem N h6 hN
+    · have : N = 4 ∨ N = 5 := by omega
+      rcases this with rfl | rfl
+      · exact minQ_cherry_four
+      · exact minQ_cherry_five
+end treefour4
+
+/-- non-vacuity: the five-taxon tree ((0:1,1:1):1,(2:1,(3:1,4:1):1):1) — as an unrooted tree ((0,1),2,(3,4)) -/
+example := nj_inverts_tree_five (α := ℚ) 5
+  (.node (.node (.leaf 0) 1 (.leaf 1) 1) 1 (.node (.leaf 2) 1 (.node (.leaf 3) 1 (.leaf 4) 1) 1) 1)
+  (by simp [NT.Nonneg]) (by simp [NT.PosInternal]) (by decide) (by decide) (by decide)
 
 end DendroModel.C14
